@@ -56,6 +56,7 @@ fn main() {
         "dump" => dump(&args[2..]),
         "digest" => digest(&args[2..]),
         "minimise" => minimise_cmd(&args[2..]),
+        "work" => work_cmd(&args[2..]),
         "miri" => miri_cmd(&args[2..]),
         "miri-threads" => miri_threads(&args[2..]),
         _ => {
@@ -766,6 +767,27 @@ fn miri_threads(a: &[String]) -> i32 {
         }
     }
     println!("MIRI-THREADS ok n={} result={:?}", n, reference);
+    0
+}
+
+/// One parse of one adversarial-family input of a given size and nothing else: the subject of the
+/// instruction-count clock (run under `valgrind --tool=cachegrind`).
+fn work_cmd(a: &[String]) -> i32 {
+    let fam: usize = a[0].parse().unwrap();
+    let size: usize = a[1].parse().unwrap();
+    let Some((kind, cfg, cap, data)) = gen::family_input(fam, size) else { return 2 };
+    let mut arena = arena::Arena::new();
+    let buf = arena.place(&data, arena::Place::END, &[]);
+    let spec = sut::CallSpec { kind, entry: 1, cfg, cap, backend: 0, arr_guard: false, alloc_mode: 0 };
+    let mut s = sut::Session::new();
+    let skip = a.get(2).map(|x| x == "skip").unwrap_or(false);
+    if skip {
+        // baseline: everything except the parse call
+        println!("WORK fam={} size={} len={} skipped", fam, size, data.len());
+        return 0;
+    }
+    let o = s.call(&mut arena, &spec, buf, false);
+    println!("WORK fam={} size={} len={} status={:?} meter={:?}", fam, size, data.len(), o.st, o.work);
     0
 }
 
